@@ -69,6 +69,10 @@ def pair_events(tf):
         out.append(ev_toggle('L3', t))
         out.append(ev_toggle('L2', t))
         out.append(ev_alter('P1', '+', 0.1, t))
+    # faults: the only event model with two timers; pairs of them give tf of one == tc of the other, equal clearing
+    # times, nested and back-to-back faults, and a Toggle coincident with a fault's start or clearance
+    for a, b in ((0.1, 0.25), (0.25, 0.5), (0.25, 0.3001), (0.1, 0.5)):
+        out.append(ev_fault(a, b))
     return out
 
 
@@ -77,8 +81,11 @@ def pair_events(tf):
 def expected(events, t0, tf):
     """Independent fold of the schedule: list of (time, order, event) that must fire."""
     fire = []
+    nfault = 0
     for k, e in enumerate(events):
         if e['kind'] == 'fault':
+            e = dict(e, slot=nfault)      # Fault devices are assigned in schedule order (see _Base.apply)
+            nfault += 1
             if e['u'] and t0 <= e['tf'] <= tf:
                 fire.append((e['tf'], k, 'fon', e))
             if e['u'] and t0 <= e['tc'] <= tf:
@@ -103,9 +110,9 @@ def fold(fire, upto, strict, init):
                 v = st[e['dev']]
                 st[e['dev']] = {'+': v + e['amount'], '*': v * e['amount'], '=': e['amount']}[e['method']]
             elif what == 'fon':
-                st['uf%d' % k] = 1.0
+                st['uf%d' % e['slot']] = 1.0
             elif what == 'foff':
-                st['uf%d' % k] = 0.0
+                st['uf%d' % e['slot']] = 0.0
     return st
 
 
@@ -171,8 +178,14 @@ class _Base(Part):
         wrap('Fault', 'tf')
         wrap('Fault', 'tc')
 
+        custom = set(log.get('custom') or [])
+
         def pert(t, system):
             log['state'].append((float(t), self.snapshot(ss)))
+            # a user perturbation that announces itself the documented way (cases/ieee14/pert.py): the flag asks for a
+            # connectivity check and a Jacobian rebuild after the step that ends at t
+            if float(t) in custom:
+                system.TDS.custom_event = True
         ss.TDS.callpert = pert
 
     def snapshot(self, ss):
@@ -318,8 +331,8 @@ class RealSteps(_Base):
 
     def describe(self, tier):
         return ('systems static3 (no differential state) and smib (GENCLS); all single events from the alphabet '
-                'x time lattice; all multisets of 2%s events from the 3-kind pair alphabet; '
-                'tstep in {0.1, 1/30, 0.033}, fixt in {1,0}; resume splits at every lattice time and te+-eps'
+                'x time lattice; all multisets of 2%s events from the pair alphabet (toggle x2, alter, 4 faults with shared start / clearing times); '
+                'a custom event (TDS.custom_event raised by a perturbation function) at / next to / away from scheduled events; tstep in {0.1, 1/30, 0.033}, fixt in {1,0}; resume splits at every lattice time and te+-eps'
                 % (' and 3' if tier == 'thorough' else ''))
 
     def cases(self, tier):
@@ -360,6 +373,13 @@ class RealSteps(_Base):
                     for s1, s2 in itertools.combinations(split_times, 2):
                         out.append(dict(sys=sysname, tf=tf, tstep=0.1, fixt=1, events=ev, splits=[s1, s2],
                                         criteria=crit))
+            # a custom event (the documented TDS.custom_event flag, raised by a perturbation function) at, next to and away
+            # from a scheduled event: scheduled events must still fire exactly once
+            for ev in ([ev_toggle('L3', 0.25)], [ev_alter('P1', '+', 0.1, 0.25)], [ev_alter('P1', '*', 1.5, 0.25)],
+                       [ev_fault(0.1, 0.25)], [ev_toggle('L3', 0.25), ev_toggle('L2', 0.25)], [ev_toggle('L3', 1.0)], []):
+                for cu in ([0.25], [0.25 + EPS], [0.3], [0.1, 0.25], [1.0]):
+                    for (tstep, fixt) in ((0.1, 1), (1 / 30, 1)):
+                        out.append(dict(sys=sysname, tf=1.0, tstep=tstep, fixt=fixt, events=ev, custom=cu, criteria=crit))
             # long horizon (> 10 s): one system, coarse step
             if sysname == 'static3':
                 tf = 13.0
@@ -373,7 +393,7 @@ class RealSteps(_Base):
         ss = self.sys[case['sys']]
         self.cp[case['sys']].restore()
         out = Outcome()
-        log = dict(cb=[], state=[], slots=self.apply(ss, case['events']))
+        log = dict(cb=[], state=[], slots=self.apply(ss, case['events']), custom=case.get('custom'))
         self.instrument(ss, log)
         log['init'] = dict(INIT, **self.snapshot(ss))
         try:
